@@ -16,7 +16,10 @@ ASSUMPTIONS = [
     'shipped sets; adsorbate parameters: N2, Ar, CO2 literature values; temperature symbolic',
     'scipy.optimize.minimize_scalar replaced by a recorder returning a symbolic pore size inside the bounds handed over; that the '
     'bounded scalar minimiser finds the root, and monotonicity of the widths, are NOT claimed',
-    'both cylinder potentials (series with int(25 L) terms; asin) and the Rege-Yang potentials are outside the quick tier',
+    'HK cylinder potential (Saito-Foley series, int(25 L) - 1 terms in the code): decided for the pore radius in windows [n/25, (n+1)/25) nm '
+    'with concrete temperature, against the published series summed to 2n terms, relative tolerance 5e-3 (the code\'s own truncation '
+    'error reaches 4.2e-3 for L <= 3 nm with the shipped sets); the radius is parametrised as L = d0/(1-u) so that all terms are polynomials in u',
+    'the Rege-Yang potentials (all geometries) are outside the encoding',
 ]
 FUNCS = ['pygaps.characterisation.psd_micro:psd_horvath_kawazoe', 'pygaps.characterisation.psd_micro:_solve_hk',
          'pygaps.characterisation.psd_micro:_solve_hk_cy', 'pygaps.characterisation.psd_micro:_dispersion_from_dict',
@@ -98,6 +101,44 @@ def h_potential(h, geometry, ads_name, mat_name):
     got = rec.hk(L)
     h.claim(f'{cid}/potential==published-equation', h.close(got, want, 1e-6))
     h.claim(f'{cid}/plain-solver-used-without-CY', rec.kind == 'hk')
+
+
+def h_potential_cylinder(h, ads_name, mat_name, n_terms, T):
+    """HK cylinder (Saito-Foley series): the code sums int(25 L) - 1 terms; compared with the published series summed to twice as
+    many terms (its remainder is below 2e-7 relative for L <= 3 nm), relative tolerance 5e-3: the code's documented truncation
+    at 25 L terms is itself off by up to 4.2e-3 for L <= 3 nm with the shipped parameter sets (evaluated with 40-digit arithmetic).  The pore radius is written as
+    L = d0 / (1 - u) with u symbolic, which keeps every term a polynomial in u (d0 / L = 1 - u); L ranges over the window
+    [n/25, (n+1)/25) in which int(25 L) == n_terms."""
+    import pygaps.characterisation.models_hk as mh
+    ads, mat = ADSORBATES[ads_name], mh._ADSORBENT_MODELS[mat_name]
+    rec, Ls, ps, ns, ap, out = capture(h, 'cylinder', ads, mat, T)
+    d_a, d_s = ads['molecular_diameter'], mat['molecular_diameter']
+    d0 = (d_a + d_s) / 2
+    a_ads, a_mat = dispersion(ads, mat)
+    n_a, n_s = ads['surface_density'], mat['surface_density']
+    u = h.real('u', pos=True)
+    h.assume(u < 1)
+    # window n/25 <= L < (n+1)/25 stated on u (no division): 1 - u <= 25 d0 / n  and  1 - u > 25 d0 / (n + 1)
+    d0q = symx._frac_of_float(d0)
+    h.assume(1 - u <= 25 * d0q / n_terms)
+    h.assume(1 - u > 25 * d0q / (n_terms + 1))
+    L = d0 / (1 - u)
+    cid = f'C17/potential/cylinder/{ads_name}/{mat_name}/int(25L)={n_terms}'
+    h.claim(f'{cid}/bounds==(d0,radius-geometry)', abs(float(rec.bound) - d0) < 1e-12 and rec.geo == 2)
+    got = rec.hk(L)
+    # published: RT ln(p/p0) = 3/4 pi N_A (N_s A_s + N_a A_a) / d0^4 * sum_k 1/(k+1) (1 - d0/L)^(2k) [21/32 a_k (d0/L)^10 - b_k (d0/L)^4]
+    x = 1 - u if h.sym else d0 / L
+    M = 2 * n_terms
+    ak, bk, ssum = F(1), F(1), 0
+    for k in range(0, M):
+        if k > 0:
+            ak = (F(-9, 2) - k) ** 2 / F(k) ** 2 * ak
+            bk = (F(-3, 2) - k) ** 2 / F(k) ** 2 * bk
+        ssum = ssum + F(1, k + 1) * (1 - x) ** (2 * k) * (F(21, 32) * ak * x ** 10 - bk * x ** 4)
+    if not h.sym:
+        ssum = float(ssum)
+    want = 0.75 * math.pi * NA / (RG * T) * (n_s * a_mat + n_a * a_ads) / (d0 * 1e-9) ** 4 * ssum
+    h.claim(f'{cid}/potential==published-series(5e-3)', h.close(got, want, 5e-3))
 
 
 def h_postprocess(h, geometry, use_cy):
@@ -224,6 +265,11 @@ def obligations(tier):
             for mn in mh._ADSORBENT_MODELS:
                 obs.append(Obligation(f'C17/potential/{geometry}/{an}/{mn}', h_potential, (geometry, an, mn),
                                       bounds='symbolic L and T; shipped adsorbent set; literature adsorbate set', **kw))
+    for an, T in ((('N2', 77.35),) if tier == 'quick' else (('N2', 77.35), ('Ar', 87.3))):
+        for mn in mh._ADSORBENT_MODELS:
+            for nt in ((12, 30, 37) if tier == 'quick' else (9, 12, 20, 30, 37, 45, 50)):
+                obs.append(Obligation(f'C17/potential/cylinder/{an}/{mn}/int(25L)={nt}', h_potential_cylinder, (an, mn, nt, T),
+                                      bounds=f'pore radius in [{nt}/25, {nt + 1}/25) nm (symbolic); T = {T} K; published series to {2 * nt} terms; rel. 5e-3', **kw))
     for geometry in ('slit', 'cylinder', 'sphere'):
         for cy in (False, True):
             obs.append(Obligation(f'C17/postprocess/{geometry}/cy={cy}', h_postprocess, (geometry, cy), bounds='k=3 symbolic solver outputs', **kw))
